@@ -1050,6 +1050,12 @@ def discharge(ctx, body, p, ev, kind):
             if isinstance(n0, tuple) and n0 and n0[0] == "binop" and n0[1] == "Mul" and const_int(n0[3]) is not None and 0 <= const_int(n0[3]) <= 16 and length_of(n0[2]) is not None \
                     and mentions(n0[2], lambda s_: is_call(s_, "GenericArray<T, N> as std::ops::Deref>::deref", "GenericArray")):
                 return "G7-capacity-from-a-fixed-size-array"      # a digest output: a few dozen bytes
+            # the same inside a private helper that is handed the bytes: every call site passes such an array
+            if isinstance(n0, tuple) and n0 and n0[0] == "binop" and n0[1] == "Mul" and const_int(n0[3]) is not None and 0 <= const_int(n0[3]) <= 16 and length_of(n0[2]) is not None \
+                    and isinstance(length_of(n0[2]), tuple) and length_of(n0[2])[:1] == ("param",) and ctx is not None:
+                origins = param_origins(ctx, body.key, length_of(n0[2])[1])
+                if origins and all(mentions(o, lambda s_: is_call(s_, "GenericArray<T, N> as std::ops::Deref>::deref", "GenericArray")) or is_call(strip_refs(o), "::finalize") for o in origins):
+                    return "G7-capacity-from-a-fixed-size-array"
             return None
         if last in ("windows", "chunks", "chunks_exact", "step_by"):
             k = const_int(ev.args[1])
@@ -1076,6 +1082,35 @@ def discharge(ctx, body, p, ev, kind):
                     return "G6-length-of-a-prefix-of-the-same-vector"
             return None
     return None
+
+
+def param_origins(ctx, helper, k):
+    """the terms passed as parameter k at every call site of a helper whose callers can all be enumerated (private, not reachable from outside
+    the crate), or None"""
+    fx = ctx.fx
+    f = fx.fn(helper)
+    if f is None or f.get("kind") == "Closure" or f.get("reachable") or (f.get("vis") == "pub" and f.get("reachable") is None):
+        return None
+    out = []
+    callers = [ck for ck, g in fx.bodies() if ck != helper and any(b["term"]["k"] == "call" and (b["term"]["func"]["path"] == helper or mir.norm_path(b["term"]["func"]["path"]) == helper) for b in g["blocks"])]
+    if not callers:
+        return None
+    for ck in callers:
+        seen = False
+        for p in ctx.paths(ck) or []:
+            for e in p.events:
+                if e.kind == "call" and (e.path == helper or e.name == helper) and len(e.args) >= k:
+                    out.append(e.args[k - 1])
+                    seen = True
+        if not seen:
+            return None
+    # a function value taken without a call (passed to map(..) etc.) has call sites that cannot be listed
+    for _, g in fx.bodies():
+        for b in g["blocks"]:
+            for st_ in b["stmts"]:
+                if helper in json.dumps(st_):
+                    return None
+    return out
 
 
 def contextual_discharge(ctx, helper, site_bb, kind):
